@@ -275,6 +275,20 @@ func (k Keeper) ClientStore(ctx sdk.Context, chainName string) sdk.KVStore {
 	return prefix.NewStore(ctx.KVStore(k.storeKey), clientPrefix)
 }
 
+// clearClientStore deletes every key of the client's prefixed store (client state, consensus states, metadata)
+func (k Keeper) clearClientStore(ctx sdk.Context, chainName string) {
+	store := k.ClientStore(ctx, chainName)
+	iterator := store.Iterator(nil, nil)
+	var keys [][]byte
+	for ; iterator.Valid(); iterator.Next() {
+		keys = append(keys, iterator.Key())
+	}
+	iterator.Close()
+	for _, key := range keys {
+		store.Delete(key)
+	}
+}
+
 // RelayerStore returns isolated prefix store for each client so they can read/write in separate
 // namespace without being able to read/write other relayer's data
 func (k Keeper) RelayerStore(ctx sdk.Context) sdk.KVStore {
